@@ -1,4 +1,5 @@
 import VelaVerif.Spec.Requant
+import VelaVerif.Spec.SoftmaxRef
 /-!
 # Integer reference semantics of quantised TensorFlow Lite operators (specification side)
 
@@ -486,7 +487,7 @@ def opClass (g : Graph) (op : OpDef) : Option Nat :=
   | "CONV_2D" | "DEPTHWISE_CONV_2D" | "FULLY_CONNECTED" | "ADD" | "SUB" | "MUL" | "QUANTIZE" | "LEAKY_RELU" | "TRANSPOSE_CONV" => some 0
   | "MAX_POOL_2D" | "RELU" | "RELU6" | "RELU_N1_TO_1" | "MINIMUM" | "MAXIMUM" | "RESHAPE" | "SQUEEZE" | "EXPAND_DIMS"
   | "CONCATENATION" | "SPLIT" | "STRIDED_SLICE" | "PAD" => some 2
-  | "LOGISTIC" | "TANH" | "RESIZE_BILINEAR" | "RESIZE_NEAREST_NEIGHBOR" | "MEAN" => some 1
+  | "LOGISTIC" | "TANH" | "RESIZE_BILINEAR" | "RESIZE_NEAREST_NEIGHBOR" | "MEAN" | "SOFTMAX" => some 1
   | "AVERAGE_POOL_2D" =>
     -- padding that actually occurs makes the operator one of the documented approximations
     match g.shape (inId op 0) with
@@ -634,6 +635,19 @@ def evalOp (g : Graph) (env : Env) (op : OpDef) : Except String (List Tensor) :=
       if prod os ≠ out.size then throw "mean: output shape"
       return [{ shape := os, data := out }]
     | _, _ => throw "unsupported:MEAN:quantisation"
+  | "SOFTMAX" =>
+    -- params: input multiplier, left shift, diff_min, beta (float32 bits); rows = innermost dimension
+    let a ← getIn env op 0
+    let dt := g.dtype (outId op 0)
+    if g.dtype (inId op 0) != dt ∨ dt.bytes ≠ 1 then throw "unsupported:SOFTMAX:type"
+    let depth := a.shape.getLastD 1
+    if depth = 0 ∨ a.data.size % depth ≠ 0 then throw "softmax: shape"
+    let mut out : Array Int := Array.mkEmpty a.data.size
+    for r in [0:a.data.size / depth] do
+      let row := (List.range depth).map fun c => a.data.getD (r * depth + c) 0
+      for v in SoftmaxRef.softmaxRow8 row (pI op 0 0) (pN op 0 1) (pI op 0 2) dt.lo dt.hi do
+        out := out.push v
+    return [{ shape := a.shape, data := out }]
   | "RESHAPE" | "SQUEEZE" | "EXPAND_DIMS" =>
     let a ← getIn env op 0
     let os := g.shape (outId op 0)
@@ -739,6 +753,15 @@ def verifyParams (g : Graph) (op : OpDef) : Except String Unit := do
     actCheck (pI op 0 0) (pI op 0 1) (if op.kind == "RELU" then 1 else if op.kind == "RELU6" then 3 else 2)
   | "QUANTIZE" =>
     expectEq "QUANTIZE multiplier" (some (pI op 0 0, pI op 0 1)) (qmRatioDouble (← g.scale1 (inId op 0)) (← g.scale1 o))
+  | "SOFTMAX" =>
+    -- the 8-bit kernels require the output quantisation 1/256 with zero point = lowest value of the type
+    let so ← g.scale1 o
+    if so ≠ 0x3B800000 ∨ g.zp o ≠ (g.dtype o).lo then throw "unsupported:SOFTMAX:output_quantisation"
+    match SoftmaxRef.softmaxParams8 (pN op 0 3) (← g.scale1 (inId op 0)) with
+    | none => throw "unsupported:scale_outside_normal_range:softmax"
+    | some (m, s, d) =>
+      expectEq "SOFTMAX input multiplier" (some (pI op 0 0, pI op 0 1)) (some (m, s))
+      if pI op 0 2 ≠ d then throw s!"reference parameter mismatch for SOFTMAX diff_min: harness {pI op 0 2}, recomputed {d}"
   | "LEAKY_RELU" =>
     let si ← g.scale1 (inId op 0)
     let so ← g.scale1 o
